@@ -132,7 +132,10 @@ def run_script(ctx, sc, stratum="script"):
 
     T = {"q": tys.Qubit, "b": tys.Bool}
     row = [T[t] for t in sc["tys"]]
-    td = TrackedDfg(*row, track_inputs=sc["track_inputs"])
+    if not sc["track_inputs"] and len(sc["steps"]) % 2:
+        td = TrackedDfg(*row)   # "track_inputs: ... Defaults to False"
+    else:
+        td = TrackedDfg(*row, track_inputs=sc["track_inputs"])
     pd = Dfg(*row)
     # symbolic wire -> (port in tracked hugr, port in plain hugr)
     W = {("in", i): (td.inputs()[i], pd.inputs()[i]) for i in range(len(row))}
